@@ -246,8 +246,25 @@ def check_sweep(case, res):
 
 
 def gen(ch, tier):
-    ft = G.feats(forall_eff=False, when=False, max_actions=1, p_long_number=0.1, long_decimals=6, p_big_values=0.12)
-    return S.gen_sem_case(ch, tier, ft, n_probes=8)
+    ft = G.feats(forall_eff=False, when=False, max_actions=1, p_long_number=0.1, long_decimals=6, p_big_values=0.12,
+                 max_params=ch.choice([3, 3, 4, 5]))
+    case = S.gen_sem_case(ch, tier, ft, n_probes=8)
+    a = case["dom"]["actions"][0]
+    if len(a["params"]) >= 4 and ch.flag(0.5):
+        # several object (in)equalities over disjoint pairs of parameters, and calls that bind each pair alike or not
+        ps = [p for p, _ in a["params"]]
+        pairs = [(ps[0], ps[1]), (ps[2], ps[3])]
+        pre = a["pre"] if a["pre"] else ["and"]
+        for x, y in pairs:
+            pre = pre + [["=", x, y] if ch.flag(0.7) else ["not", ["=", x, y]]]
+        a["pre"] = pre
+        types = [ty for _, ty in a["params"]]
+        for pr in case["probes"]:
+            if pr["action"] == a["name"]:
+                for i, j in ((0, 1), (2, 3)):
+                    if ch.flag(0.6) and types[i] == types[j]:
+                        pr["args"][j] = pr["args"][i]
+    return case
 
 
 def plan(tier):
